@@ -234,16 +234,20 @@ impl Default for PVal {
 /// impl to `plan[id]` (thread environment). In choice mode (C05) each `finish`
 /// is an environment choice among the lawful hash and three alternatives.
 #[derive(Clone, Copy, Default, Debug)]
-pub struct PlanBuild;
+pub struct PlanBuild {
+    /// use the environment's second plan (differently "seeded" hasher instance)
+    pub alt: bool,
+}
 
 pub struct PlanHasher {
     id: u8,
+    alt: bool,
 }
 impl BuildHasher for PlanBuild {
     type Hasher = PlanHasher;
     fn build_hasher(&self) -> PlanHasher {
         env::tick(Class::BuildHasher);
-        PlanHasher { id: 0 }
+        PlanHasher { id: 0, alt: self.alt }
     }
 }
 impl Hasher for PlanHasher {
@@ -258,7 +262,9 @@ impl Hasher for PlanHasher {
     fn finish(&self) -> u64 {
         let c = env::choose(4);
         env::with(|e| {
-            if c == 0 {
+            if self.alt {
+                e.plan_b[self.id as usize]
+            } else if c == 0 {
                 e.plan[self.id as usize]
             } else {
                 e.alt[self.id as usize][c as usize - 1]
